@@ -367,7 +367,14 @@ func special4(r *rand.Rand) []byte {
 		p.Options[60] = vendorString(r)
 	case 1:
 		v := vendorString(r)
-		p.Options[124] = append([]byte{0, 0, byte(r.UintN(256)), byte(r.UintN(256)), byte(len(v))}, v...)
+		if r.IntN(2) == 0 { // Cisco VIVC format and malformed variants of it
+			v = []byte([]string{"SN:0;PID:R-IOSXRV9000-CC", "SN:FOC1;PID", "SN", ";", "SN:1:2;PID:x", "PID:x;SN:"}[r.IntN(6)])
+		}
+		ent := []uint32{9, 9, 33049, 1271, uint32(r.UintN(70000))}[r.IntN(5)] // 9 = Cisco
+		p.Options[124] = append([]byte{byte(ent >> 24), byte(ent >> 16), byte(ent >> 8), byte(ent), byte(len(v))}, v...)
+		if r.IntN(3) == 0 { // a second identifier
+			p.Options[124] = append(p.Options[124], 0, 0, 0, 9, 3, 'S', 'N', ':')
+		}
 	case 2:
 		v := vendorString(r)
 		p.Options[82] = append([]byte{1, byte(len(v))}, v...)
